@@ -1843,9 +1843,14 @@ func (p *parser) generateClosureForTypeScriptNamespaceOrEnum(
 				IsExport: isExport,
 			}})
 		} else {
-			// Nested namespace: "let"
+			// Nested namespace: "let" (or "var" if "let" isn't available, which is
+			// equivalent here because this is at the top level of a closure)
+			kind := js_ast.LocalLet
+			if p.options.unsupportedJSFeatures.Has(compat.ConstAndLet) {
+				kind = js_ast.LocalVar
+			}
 			stmts = append(stmts, js_ast.Stmt{Loc: stmtLoc, Data: &js_ast.SLocal{
-				Kind:  js_ast.LocalLet,
+				Kind:  kind,
 				Decls: decls,
 			}})
 		}
